@@ -11,8 +11,8 @@ def Msg.declared : Msg → Option Nat
   | .data d => d.length.map (·.toNat)
 
 theorem specControl_consumed (w : UInt16) (o : Opts) (s : Bytes) (m : Msg) (k : Nat)
-    (h : Spec.decodeControl w o s = some (m, k)) : m.declared = some (k + 2) := by
-  unfold Spec.decodeControl at h
+    (h : Spec.decodeControlM w o s = some (m, k)) : m.declared = some (k + 2) := by
+  unfold Spec.decodeControlM at h
   split at h
   · cases h
   split at h
@@ -31,8 +31,8 @@ theorem specControl_consumed (w : UInt16) (o : Opts) (s : Bytes) (m : Msg) (k : 
     omega
 
 theorem specData_consumed (w : UInt16) (s : Bytes) (m : Msg) (k : Nat) (hL : hasLength w = true)
-    (h : Spec.decodeData w s = some (m, k)) : m.declared = some (k + 2) := by
-  unfold Spec.decodeData at h
+    (h : Spec.decodeDataM w s = some (m, k)) : m.declared = some (k + 2) := by
+  unfold Spec.decodeDataM at h
   simp only [hL, if_true] at h
   generalize (if hasOffset w = true then (u16At s (dataNeed w - 2)).toNat else 0) = pad at h
   by_cases c1 : s.length < dataNeed w
@@ -52,17 +52,17 @@ theorem specData_consumed (w : UInt16) (s : Bytes) (m : Msg) (k : Nat) (hL : has
 /-- what the model's success means in terms of the specification -/
 theorem decode_ok_spec (o : Opts) (b : Bytes) (m : Msg) (r : Bytes)
     (h : (decode o : M Bytes (List DErr) Msg) b = .ok m r) :
-    ∃ n, Spec.decode o b = some (m, n) ∧ r = b.drop n := by
+    ∃ n, Spec.decodeM o b = some (m, n) ∧ r = b.drop n := by
   have hv := decode_view o b
   rw [h] at hv
-  cases hs : Spec.decode o b with
+  cases hs : Spec.decodeM o b with
   | none => rw [hs] at hv; simp [viewR, afterSpec] at hv
   | some p =>
     rw [hs] at hv
     simp only [viewR, afterSpec, Option.map, Option.some.injEq, Prod.mk.injEq] at hv
     exact ⟨p.2, by rw [hv.1], hv.2⟩
 
-theorem spec_ok_decode (o : Opts) (b : Bytes) (m : Msg) (n : Nat) (h : Spec.decode o b = some (m, n)) :
+theorem spec_ok_decode (o : Opts) (b : Bytes) (m : Msg) (n : Nat) (h : Spec.decodeM o b = some (m, n)) :
     (decode o : M Bytes (List DErr) Msg) b = .ok m (b.drop n) := by
   have hv := decode_view o b
   rw [h] at hv
